@@ -421,9 +421,16 @@ impl<'de, R: Reader<'de>> Deserializer<R> {
             let n = if cfg.utf8_lossy && self.parser.read.next_invalid_utf8() != usize::MAX {
                 // repr the invalid utf8, not need to care about the invalid UTF8 char in non-string
                 // parts, it will cause errors when parsing.
-                let n = val.parse_with_padding(String::from_utf8_lossy(json).as_bytes(), cfg)?;
-                // `n` counts bytes of the repaired text: map it back to the input
-                lossy_offset_to_origin(json, n)
+                match val.parse_with_padding(String::from_utf8_lossy(json).as_bytes(), cfg) {
+                    // `n` counts bytes of the repaired text: map it back to the input
+                    Ok(n) => lossy_offset_to_origin(json, n),
+                    // and so does the position of an error
+                    Err(err) if err.line() != 0 => {
+                        let index = lossy_offset_to_origin(json, err.offset());
+                        return Err(Error::syntax(err.error_code(), json, index));
+                    }
+                    Err(err) => return Err(err),
+                }
             } else {
                 val.parse_with_padding(json, cfg)?
             };
